@@ -218,6 +218,18 @@ func (e *c04env) one(arch string, buf []byte, class string) {
 	}
 }
 
+// c04SmemImm is the architected value of the SMEM immediate: 20 bits unsigned on GCN3, 21 bits signed on GFX9+.
+func c04SmemImm(arch string, field uint32) int64 {
+	if arch != "cdna3" {
+		return int64(field & 0xfffff)
+	}
+	v := int64(field & 0x1fffff)
+	if v >= 1<<20 {
+		v -= 1 << 21
+	}
+	return v
+}
+
 // admissibleOrders returns decoders whose format lists are other orders a sort by
 // non-increasing mask over a randomly ordered map can produce.
 func admissibleOrders(rng *Rng, n int) []*insts.Disassembler {
@@ -393,6 +405,9 @@ func (e *c04env) roundTrip(rng *Rng, rows map[string][]*insts.InstType) {
 		f["glc"] = uint32(rng.Intn(2))
 		if f["imm"] == 1 {
 			f["offset"] = uint32(rng.Intn(1 << 20))
+			if rng.Chance(25) {
+				f["offset"] |= 1 << 20 // GFX9: sign bit of the 21-bit immediate; not part of the GCN3 field
+			}
 		} else {
 			f["offset"] = uint32(rng.Intn(102))
 		}
@@ -436,6 +451,12 @@ func (e *c04env) roundTrip(rng *Rng, rows map[string][]*insts.InstType) {
 	dis := e.gcn3
 	if rng.Chance(30) {
 		arch, dis = "cdna3", e.cdna3
+		// opcodes CDNA3 defines differently (e.g. VOP1 0x38 = v_mov_b64) decode to the CDNA3 row
+		for _, o := range e.cdna3.VerifCDNA3Rows() {
+			if o.Format.FormatType == it.Format.FormatType && o.Opcode == it.Opcode {
+				it = o
+			}
+		}
 	}
 	line := fmt.Sprintf("c04 dec %s %s", arch, hexb(full))
 	out, inst := decodeCanon(dis, full)
@@ -503,7 +524,7 @@ func (e *c04env) roundTrip(rng *Rng, rows map[string][]*insts.InstType) {
 	case "smem":
 		if inst.Imm != (f["imm"] == 1) || inst.GlobalLevelCoherent != (f["glc"] == 1) {
 			bad("imm/glc flag mismatch")
-		} else if inst.Imm && uint32(inst.Offset.IntValue) != f["offset"] {
+		} else if inst.Imm && inst.Offset.IntValue != c04SmemImm(arch, f["offset"]) {
 			bad("offset %d", inst.Offset.IntValue)
 		} else if !inst.Imm && (inst.Offset.OperandType != insts.RegOperand || uint32(inst.Offset.Register.RegIndex()) != f["offset"]) {
 			bad("offset register mismatch")
@@ -695,6 +716,15 @@ func runC04(r *Run, rng *Rng, replay string) {
 				arch = "cdna3"
 			}
 			e.one(arch, buf, "row")
+		}
+	}
+	// the rows a CDNA3 disassembler looks up first, on both architectures
+	for _, it := range e.cdna3.VerifCDNA3Rows() {
+		for k := 0; k < 4*perRow; k++ {
+			w := fillWord(rng, it.Format, uint32(it.Opcode))
+			buf := binary.LittleEndian.AppendUint32(nil, w)
+			buf = append(buf, rng.Bytes(rng.Pick(0, 4, 8))...)
+			e.one([]string{"cdna3", "cdna3", "gcn3"}[rng.Intn(3)], buf, "cdna3row")
 		}
 	}
 	// (ii) raw random words
